@@ -159,13 +159,20 @@ func newTokSched(n int, seed uint64, policy, p int, estSteps int) *tokSched {
 // panic of the work is re-raised in the caller.
 func runGuarded(fn func()) (deadlocked bool) {
 	s := newTokSched(1, 1, 0, 0, 1000)
-	prevY, prevB, prevW, prevMode := simrt.YieldFn, simrt.BlockFn, simrt.WakeFn, simrt.Mode()
+	prevMode := simrt.Mode()
 	sched = s
+	// (the hooks stay installed afterwards: they do nothing outside token mode, and not
+	// writing them again keeps the race detector's view of these globals quiet)
 	simrt.YieldFn, simrt.BlockFn, simrt.WakeFn = schedYield, schedBlock, schedWake
 	simrt.SetMode(simrt.ModeToken)
 	var pv interface{}
 	var stack []byte
+	joined := make(chan struct{})
 	go func() {
+		// (a real happens-before edge from the end of the work to the caller: the token
+		// hand-off is invisible to the race detector on purpose, but what a sequential
+		// phase did does precede whatever the caller starts afterwards)
+		defer close(joined)
 		schedWorkerStart(0)
 		defer schedWorkerDone(0)
 		defer func() {
@@ -176,13 +183,14 @@ func runGuarded(fn func()) (deadlocked bool) {
 		fn()
 	}()
 	s.run()
-	simrt.SetMode(prevMode)
-	simrt.YieldFn, simrt.BlockFn, simrt.WakeFn = prevY, prevB, prevW
 	if s.deadlock {
+		simrt.SetMode(prevMode)
 		s.abandon()
 		sched = nil
 		return true
 	}
+	<-joined
+	simrt.SetMode(prevMode)
 	s.close()
 	sched = nil
 	if pv != nil {
